@@ -461,12 +461,14 @@ Section Walk.
     end.
   Definition w_traverse_bf (fuel : nat) (D F : nfilter) (root : nid) : res (list nid) :=
     q <- w_iterate_children D ftrue root ;; r <- bf_loop fuel D F q ;; Ok (if F root then root :: r else r).
-  Fixpoint btt (fuel : nat) (D F : nfilter) (node : nid) : res (list nid) :=
+  (* yield_children: all children (ambient filter only), then the node itself if it is the given root or matches *)
+  Fixpoint btt (fuel : nat) (D F : nfilter) (root node : nid) : res (list nid) :=
     match fuel with
     | O => OutOfFuel
-    | S f => kids <- w_iterate_children D F node ;; r <- concat_res (btt f D F) false kids ;; Ok (r ++ [node])
+    | S f => kids <- w_iterate_children D ftrue node ;; r <- concat_res (btt f D F root) false kids ;;
+             Ok (if N.eqb node root || F node then r ++ [node] else r)
     end.
-  Definition w_traverse_df_btt := btt.
+  Definition w_traverse_df_btt (fuel : nat) (D F : nfilter) (root : nid) : res (list nid) := btt fuel D F root root.
   Definition w_traverse_df_ttb (fuel : nat) (D F : nfilter) (root : nid) : res (list nid) :=
     l <- w_iterate_descendants fuel D F root ;; Ok (root :: l).
 
